@@ -138,6 +138,9 @@ func runC19(s *Session, tier string) string {
 		var total int64 = 3000
 		for _, ex := range exs {
 			total += int64(len(ex.reqEnc)+len(ex.respEnc)) + 3000
+			if len(ex.respErr) > 2000 {
+				total += 2 * int64(len(ex.respErr)) // (the error travels instead of the response)
+			}
 		}
 		s.drawPlan(kind == "rhp3" && t.Chance(2, 3), total/2)
 		if s.plan.chunk == "byte" {
